@@ -175,6 +175,79 @@ func (s *c04Sim) loop(t *rapid.T) {
 	}
 }
 
+// drawVariants adds what the plain generator never writes: the other spellings of the gang annotations and gang
+// groups that are only bundled after the gangs were first seen. Called right after c04GenSim, before any object exists.
+//   - match policy through the compatibility key pod-group.scheduling.sigs.k8s.io/match-policy (alone, or next to the
+//     primary key which then wins); light-weight name label with min-available given by the annotation;
+//   - late bundling: the PodGroup gangs of a multi-gang group start stand-alone (no groups annotation) and get the
+//     groups annotation by a later PodGroup update (rule pgBundle). Until then such a gang declares only itself.
+func (s *c04Sim) drawVariants(t *rapid.T) {
+	for _, g := range s.gangs {
+		if g.policy != "" {
+			g.policySpelling = rapid.SampledFrom([]int{0, 1, 1, 2}).Draw(t, "policySpelling")
+		}
+		if g.light {
+			g.lightMinAnno = rapid.Bool().Draw(t, "lightMinByAnnotation")
+		}
+	}
+	for _, members := range s.groups {
+		if len(members) < 2 || !rapid.Bool().Draw(t, "lateBundling") {
+			continue
+		}
+		for _, gi := range members {
+			if g := s.gangs[gi]; g.crd {
+				g.lateAnno, g.groupAnno = g.groupAnno, ""
+				g.declGroup = []int{g.idx}
+			}
+		}
+	}
+}
+
+func (s *c04Sim) variantRules() []c04Rule {
+	return []c04Rule{
+		{name: "pgBundle", w: 4, gang: func(g *c04Gang) bool { return g.crd && g.pgExists && g.lateAnno != "" }, run: func(t *rapid.T, _ *c04Pod, g *c04Gang) {
+			g.groupAnno, g.lateAnno, g.declGroup = g.lateAnno, "", nil
+			old := g.pgObj
+			g.pgVer++
+			g.pgObj = g.buildPG()
+			s.cache.onPodGroupUpdate(old, g.pgObj)
+			s.logf("podgroup update %s: bundled, groups=%s", g.id, g.groupAnno)
+			s.modelPG(g, "update")
+			s.c.Class("variant:group-bundled-by-a-later-podgroup-update")
+		}},
+	}
+}
+
+func (s *c04Sim) finishVariants() {
+	for _, g := range s.gangs {
+		s.c.ClassIf(g.policySpelling == 1, "variant:match-policy-by-alias-key")
+		s.c.ClassIf(g.policySpelling == 1 && g.recInit && g.effPolicy != s.args.DefaultMatchPolicy, "variant:match-policy-by-alias-key-differs-from-default")
+		s.c.ClassIf(g.policySpelling == 2, "variant:match-policy-by-both-keys")
+		s.c.ClassIf(g.lightMinAnno, "variant:lightweight-name-with-annotation-min")
+		s.c.ClassIf(g.lateAnno != "", "variant:group-never-bundled")
+	}
+}
+
+// the History machine (direct Permit / AfterPostFilter / reserve failure, no rounds) over the variants
+func TestVerifC04HistoryVariants(t *testing.T) {
+	c04Silence()
+	rec := vk.New(t, "C04", "historyVariants")
+	rapid.Check(t, func(t *rapid.T) {
+		c := rec.Begin()
+		defer c.End()
+		s := c04GenSim(t, c, 9)
+		s.drawVariants(t)
+		s.populate(t)
+		rules := append(s.rules(), s.variantRules()...)
+		t.Repeat(map[string]func(*rapid.T){
+			"step": func(t *rapid.T) { s.step(t, rules) },
+			"":     func(t *rapid.T) { s.checkPartition(t) },
+		})
+		s.finishVariants()
+		s.finish()
+	})
+}
+
 func TestVerifC04Rounds(t *testing.T) {
 	c04Silence()
 	rec := vk.New(t, "C04", "rounds")
@@ -182,6 +255,7 @@ func TestVerifC04Rounds(t *testing.T) {
 		c := rec.Begin()
 		defer c.End()
 		s := c04GenSim(t, c, 12)
+		s.drawVariants(t)
 		// every gang mostly complete, so that rounds can open (BeforePreFilter wants min children in every gang)
 		for _, g := range s.gangs {
 			if g.crd && rapid.IntRange(0, 9).Draw(t, "pgAbsent") != 9 {
@@ -207,10 +281,12 @@ func TestVerifC04Rounds(t *testing.T) {
 				rules = append(rules, r)
 			}
 		}
+		rules = append(rules, s.variantRules()...)
 		t.Repeat(map[string]func(*rapid.T){
 			"step": func(t *rapid.T) { s.step(t, rules) },
 			"":     func(t *rapid.T) { s.checkPartition(t) },
 		})
+		s.finishVariants()
 		mixed := false
 		for _, m := range s.groups {
 			strict, non := false, false
